@@ -83,6 +83,14 @@ def cases(tier, seed):
                     "i": i})
     for i in range(len(WEAK)):
         out.append({"id": "weak-coupling#%d" % i, "kind": "weak", "i": i})
+    # the same anchor through the numerical lens theory: the image of two
+    # well separated spheres is the superposition of the two single-sphere
+    # images, each WHERE ITS SPHERE IS (single spheres are point-symmetric
+    # about their centre, a cluster is not: only the cluster can show an
+    # image that is turned about the optical axis)
+    for i in range(len(WEAK_LENS)):
+        out.append({"id": "weak-coupling-lens#%d" % i, "kind": "weaklens",
+                    "i": i, "_timeout": 900})
     # cross sections of an oblique dimer under a joint rotation of the
     # cluster and the polarization
     out.append({"id": "xsec-rotation", "kind": "xsecrot", "_timeout": 900})
@@ -134,6 +142,40 @@ WEAK = [(0.1, 1.45, (1.5, 0.4, 2.0)), (0.1, 1.45, (3.0, 0.8, 4.0)),
         # beyond the 70 cluster-centred orders the solver is compiled for
         # (k * extent / 2 > ~53): refused, or within the same bound
         (0.025, 1.45, (6.0, 2.0, 8.0)), (0.025, 1.45, (12.0, 0.0, 0.0))]
+
+
+WEAK_LENS = [((1.0, 0.5, 0.3), 5.0, (1.0, 0.0)),
+             ((1.0, 0.5, 0.3), -4.0, (1.0, 0.0)),
+             ((-0.8, 1.1, -0.2), 5.0, (0.6, 0.8))]
+
+
+def _run_weaklens(case, ck):
+    from holopy.scattering import (Multisphere, Mie, Sphere, Spheres,
+                                   calc_holo)
+    from holopy.scattering.theory import Lens
+    d, zc, pol = WEAK_LENS[case["i"]]
+    d = np.array(d)
+    c0 = np.array([2.0, 2.0, zc])
+    with warnings.catch_warnings():
+        warnings.simplefilter("ignore")
+        s = Spheres([Sphere(n=1.59, r=0.40, center=tuple(c0 + d)),
+                     Sphere(n=1.59, r=0.25, center=tuple(c0 - d))])
+        det = H.det_grid((12, 12), 0.35)
+        a = calc_holo(det, s, H.NMED, H.WL, pol,
+                      theory=Lens(0.9, Multisphere(), 60, 60)).values
+        b = calc_holo(det, s, H.NMED, H.WL, pol,
+                      theory=Lens(0.9, Mie(False, False), 60, 60)).values
+    ck.trans += 2
+    e = float(np.abs(a - b).max())
+    contrast = float(np.abs(b - 1).max())
+    ck.metric("weak-coupling-lens", e / contrast)
+    # [measured 1e-4 .. 2e-3 of the contrast: the coupling of the spheres]
+    ck.true("weak-coupling-limit", e <= 0.02 * contrast, "two well "
+            "separated spheres (centroid %r, offsets +-%r) through the lens "
+            "wrapper: the cluster image differs from the superposition of "
+            "the two single-sphere images by %.3g (contrast of the image "
+            "%.3g)" % (c0.tolist(), d.tolist(), e, contrast))
+    return digest(fp_values(a))
 
 
 def _run_weak(case, ck):
@@ -631,7 +673,7 @@ def run_case(case):
     _USE_ALIGNED[0] = bool(case.get("aligned"))
     _USE_SIZES[0] = bool(case.get("sizes"))
     fp = {"perm": _run_perm, "bigperm": _run_bigperm, "rot": _run_rot,
-          "rule": _run_rule, "weak": _run_weak,
+          "rule": _run_rule, "weak": _run_weak, "weaklens": _run_weaklens,
           "xsecrot": _run_xsecrot,
           "displaced": _run_displaced}[case["kind"]](case, ck)
     return ck.result(fp=fp)
